@@ -12,7 +12,10 @@ package sqlx_test
 // rows of one goroutine in insertion order inside a statement, a statement
 // never carries more than 1000 rows, the result handler is called once per
 // executed statement with that statement's result or error, whichever trigger
-// (row threshold, 1 s tick, Flush / UpdateOrDelete) flushes.
+// (row threshold, 1 s tick, Flush / UpdateOrDelete / UpdateStmt) flushes.
+// UpdateStmt(stmt') switches between statement texts of the same arity: a row
+// is executed with its own values by a statement whose text was in force at
+// some moment between its Insert and its execution.
 
 import (
 	"context"
@@ -46,9 +49,25 @@ func init() {
 const (
 	c16bInterval = time.Second // sqlx.flushInterval
 	c16bMaxRows  = 1000        // sqlx.maxBulkRows
-	c16bPrefix   = "insert into t (id, g, seq) values"
-	c16bSuffix   = "on duplicate key update seq = seq"
 )
+
+// statement variants (same columns, same arity) for NewBulkInserter / UpdateStmt
+type c16bVariant struct{ prefix, suffix string }
+
+var c16bVariants = []c16bVariant{
+	{"insert into t (id, g, seq) values", ""},
+	{"insert into t2 (id, g, seq) values", ""},
+	{"insert into t3 (id, g, seq) values", "on duplicate key update seq = seq"},
+	{"insert into t (id, g, seq) values", "on duplicate key update seq = seq"},
+}
+
+func (v c16bVariant) text() string {
+	s := v.prefix + " (?, ?, ?)"
+	if v.suffix != "" {
+		s += " " + v.suffix
+	}
+	return s
+}
 
 // ---------------------------------------------------------------- fake driver
 
@@ -57,11 +76,13 @@ var errC16bInjected = errors.New("c16 injected exec fault")
 type c16bStmt struct {
 	query  string
 	at     time.Duration
+	clk    int64 // logical clock when the statement reached the driver
 	failed bool
 }
 
 type c16bFake struct {
 	mu     sync.Mutex
+	clk    int64
 	t0     time.Time
 	stmts  []c16bStmt
 	lat    []int
@@ -76,6 +97,13 @@ func (c c16bConnector) Driver() driver.Driver                        { return c1
 
 type c16bDriver struct{}
 
+func (f *c16bFake) tick() int64 {
+	f.mu.Lock()
+	defer f.mu.Unlock()
+	f.clk++
+	return f.clk
+}
+
 func (c16bDriver) Open(string) (driver.Conn, error) { return nil, errors.New("use the connector") }
 
 type c16bConn struct{ f *c16bFake }
@@ -88,7 +116,8 @@ func (c *c16bConn) ExecContext(_ context.Context, q string, _ []driver.NamedValu
 	f.mu.Lock()
 	k := len(f.stmts)
 	fail := k == f.failAt
-	f.stmts = append(f.stmts, c16bStmt{query: q, at: time.Since(f.t0), failed: fail})
+	f.clk++
+	f.stmts = append(f.stmts, c16bStmt{query: q, at: time.Since(f.t0), clk: f.clk, failed: fail})
 	f.mu.Unlock()
 	if len(f.lat) > 0 {
 		if l := f.lat[k%len(f.lat)]; l > 0 {
@@ -107,8 +136,9 @@ func (c *c16bConn) ExecContext(_ context.Context, q string, _ []driver.NamedValu
 type c16bEv struct {
 	G   int    `json:"g"`
 	Gap int    `json:"d,omitempty"` // quarter intervals (250 ms) since the previous event
-	K   string `json:"k"`           // insert | flush | uod
+	K   string `json:"k"`           // insert | flush | uod | upd
 	N   int    `json:"n,omitempty"` // insert: number of consecutive rows
+	V   int    `json:"v,omitempty"` // upd: statement variant passed to UpdateStmt
 	Y   int    `json:"y,omitempty"`
 }
 
@@ -117,7 +147,7 @@ type c16bCase struct {
 	Lat     []int    `json:"lat,omitempty"` // Exec latency of the k-th statement, quarter intervals
 	FailAt  int      `json:"fail"`          // index of the statement the driver fails (-1: none)
 	Handler bool     `json:"h,omitempty"`   // SetResultHandler
-	Suffix  bool     `json:"sfx,omitempty"`
+	V0      int      `json:"v0,omitempty"`  // statement variant passed to NewBulkInserter
 }
 
 type c16bRow struct{ id, g, seq int }
@@ -131,32 +161,43 @@ func c16bMax(a, b int) int {
 
 var c16bRowRe = regexp.MustCompile(`^\((\d+), (\d+), (\d+)\)$`)
 
-func c16bParse(q string, suffix bool) ([]c16bRow, error) {
-	if !strings.HasPrefix(q, c16bPrefix+" ") {
-		return nil, fmt.Errorf("statement does not start with the insert prefix: %.80q", q)
-	}
-	body := q[len(c16bPrefix)+1:]
-	if suffix {
-		if !strings.HasSuffix(body, " "+c16bSuffix) {
-			return nil, fmt.Errorf("statement does not end with the suffix: ...%.60q", body[c16bMax(0, len(body)-60):])
+// c16bParse recognises the variant of a statement text and returns its rows.
+func c16bParse(q string) (variant int, rows []c16bRow, err error) {
+	variant = -1
+	body := ""
+	for pass := 0; pass < 2 && variant < 0; pass++ { // variants with a suffix first (two variants share a prefix)
+		for vi, v := range c16bVariants {
+			if (v.suffix != "") != (pass == 0) || !strings.HasPrefix(q, v.prefix+" ") {
+				continue
+			}
+			b := q[len(v.prefix)+1:]
+			if v.suffix != "" {
+				if !strings.HasSuffix(b, " "+v.suffix) {
+					continue
+				}
+				b = b[:len(b)-len(v.suffix)-1]
+			}
+			variant, body = vi, b
+			break
 		}
-		body = body[:len(body)-len(c16bSuffix)-1]
 	}
-	var rows []c16bRow
+	if variant < 0 {
+		return -1, nil, fmt.Errorf("statement text is none of the statements passed to NewBulkInserter/UpdateStmt: %.90q", q)
+	}
 	for _, part := range strings.Split(body, "), ") {
 		if !strings.HasSuffix(part, ")") {
 			part += ")"
 		}
 		m := c16bRowRe.FindStringSubmatch(part)
 		if m == nil {
-			return nil, fmt.Errorf("malformed row %.40q", part)
+			return variant, nil, fmt.Errorf("malformed row %.40q", part)
 		}
 		id, _ := strconv.Atoi(m[1])
 		g, _ := strconv.Atoi(m[2])
 		seq, _ := strconv.Atoi(m[3])
 		rows = append(rows, c16bRow{id, g, seq})
 	}
-	return rows, nil
+	return variant, rows, nil
 }
 
 type c16bHandled struct {
@@ -177,11 +218,7 @@ func c16bInterp(t *testing.T, c c16bCase) (v kit.Verdict) {
 		fake := &c16bFake{t0: time.Now(), lat: c.Lat, failAt: c.FailAt, unit: U}
 		db := sql.OpenDB(c16bConnector{fake})
 		defer db.Close()
-		stmt := "insert into t (id, g, seq) values (?, ?, ?)"
-		if c.Suffix {
-			stmt += " " + c16bSuffix
-		}
-		bi, err := sqlx.NewBulkInserter(sqlx.NewConnFromDB(db), stmt)
+		bi, err := sqlx.NewBulkInserter(sqlx.NewConnFromDB(db), c16bVariants[c.V0].text())
 		if err != nil {
 			failf("NewBulkInserter: %v", err)
 			return
@@ -201,9 +238,15 @@ func c16bInterp(t *testing.T, c c16bCase) (v kit.Verdict) {
 		}
 
 		type ins struct {
-			g, seq   int
-			returned bool
+			g, seq    int
+			call, ret int64 // logical clock; ret == 0: Insert never returned
+			returned  bool
 		}
+		type upd struct {
+			v         int
+			call, ret int64
+		}
+		var upds []*upd
 		var imu sync.Mutex
 		inserted := map[int]*ins{}
 		ng := 0
@@ -237,7 +280,7 @@ func c16bInterp(t *testing.T, c c16bCase) (v kit.Verdict) {
 					case "insert":
 						for k := 0; k < e.N; k++ {
 							id := i*10000 + k
-							rec := &ins{g: g, seq: seq}
+							rec := &ins{g: g, seq: seq, call: fake.tick()}
 							imu.Lock()
 							inserted[id] = rec
 							imu.Unlock()
@@ -246,7 +289,7 @@ func c16bInterp(t *testing.T, c c16bCase) (v kit.Verdict) {
 								return
 							}
 							imu.Lock()
-							rec.returned = true
+							rec.returned, rec.ret = true, fake.tick()
 							imu.Unlock()
 							seq++
 						}
@@ -254,6 +297,18 @@ func c16bInterp(t *testing.T, c c16bCase) (v kit.Verdict) {
 						bi.Flush()
 					case "uod":
 						bi.UpdateOrDelete(func() {})
+					case "upd":
+						u := &upd{v: e.V, call: fake.tick()}
+						imu.Lock()
+						upds = append(upds, u)
+						imu.Unlock()
+						if err := bi.UpdateStmt(c16bVariants[e.V].text()); err != nil {
+							failf("UpdateStmt(%q): %v", c16bVariants[e.V].text(), err)
+							return
+						}
+						imu.Lock()
+						u.ret = fake.tick()
+						imu.Unlock()
 					}
 				}
 			}()
@@ -282,7 +337,7 @@ func c16bInterp(t *testing.T, c c16bCase) (v kit.Verdict) {
 		var sizes []int64
 		failedStmts := 0
 		for si, st := range fake.stmts {
-			rows, err := c16bParse(st.query, c.Suffix)
+			variant, rows, err := c16bParse(st.query)
 			if err != nil {
 				failf("statement %d: %v", si, err)
 				continue
@@ -299,6 +354,19 @@ func c16bInterp(t *testing.T, c c16bCase) (v kit.Verdict) {
 			} else {
 				sizes = append(sizes, int64(len(rows)))
 			}
+			// the text must have been handed to the inserter before this statement was executed
+			introduced := variant == c.V0
+			for _, u := range upds {
+				if u.v == variant && u.call < st.clk {
+					introduced = true
+				}
+			}
+			if !introduced {
+				failf("statement %d (at %v) uses the text of variant %d, which had not been passed to NewBulkInserter/UpdateStmt by then", si, st.at, variant)
+			}
+			if variant != c.V0 {
+				cl["executed-with-updated-stmt"] = true
+			}
 			lastSeq := map[int]int{}
 			for _, r := range rows {
 				in, ok := inserted[r.id]
@@ -308,6 +376,22 @@ func c16bInterp(t *testing.T, c c16bCase) (v kit.Verdict) {
 				}
 				if in.g != r.g || in.seq != r.seq {
 					failf("statement %d: row id %d reached the driver as (g %d, seq %d), inserted as (g %d, seq %d)", si, r.id, r.g, r.seq, in.g, in.seq)
+				}
+				// ... and must not have been replaced, before the row was inserted, by an UpdateStmt that
+				// had already returned: stale = every introduction of this text is strictly older than u
+				for _, u := range upds {
+					if u.ret == 0 || u.ret > in.call || u.v == variant {
+						continue
+					}
+					stale := true
+					for _, w := range upds {
+						if w.v == variant && !(w.ret != 0 && w.ret < u.call) {
+							stale = false
+						}
+					}
+					if stale {
+						failf("row id %d (g %d seq %d) was inserted after UpdateStmt(variant %d) had returned, but was executed by statement %d with the older text of variant %d", r.id, r.g, r.seq, u.v, si, variant)
+					}
 				}
 				if prev, dup := where[r.id]; dup {
 					failf("row id %d (g %d seq %d) executed twice: statements %d (at %v) and %d (at %v)", r.id, r.g, r.seq, prev, fake.stmts[prev].at, si, st.at)
@@ -323,7 +407,7 @@ func c16bInterp(t *testing.T, c c16bCase) (v kit.Verdict) {
 		for id, in := range inserted {
 			gs[in.g] = true
 			if _, ok := where[id]; !ok && in.returned {
-				failf("row id %d (g %d seq %d) was never executed: %d statements, 13 s after the final Flush", id, in.g, in.seq, len(fake.stmts))
+				failf("row id %d (g %d seq %d, Insert returned nil) was never executed: %d statements, %d UpdateStmt calls, 13 s after the final Flush", id, in.g, in.seq, len(fake.stmts), len(upds))
 			}
 		}
 		if c.Handler {
@@ -357,6 +441,9 @@ func c16bInterp(t *testing.T, c c16bCase) (v kit.Verdict) {
 		if len(fake.stmts) >= 2 {
 			cl["2+statements"] = true
 		}
+		if len(upds) > 0 {
+			cl["UpdateStmt"] = true
+		}
 		if len(c.Lat) > 0 && maxLat > 0 {
 			cl["exec-latency"] = true
 		}
@@ -382,13 +469,16 @@ func c16bInterp(t *testing.T, c c16bCase) (v kit.Verdict) {
 func c16bGen(rt *rapid.T) c16bCase {
 	c := c16bCase{FailAt: -1}
 	c.Handler = rapid.IntRange(0, 3).Draw(rt, "handler") > 0
-	c.Suffix = rapid.Bool().Draw(rt, "suffix")
+	c.V0 = rapid.IntRange(0, len(c16bVariants)-1).Draw(rt, "v0")
 	ng := rapid.IntRange(1, 4).Draw(rt, "ng")
 	n := rapid.IntRange(1, 24).Draw(rt, "nev")
 	big := rapid.IntRange(0, 7).Draw(rt, "big") == 0 // cases that reach the 1000-row threshold
 	for i := 0; i < n; i++ {
 		e := c16bEv{G: rapid.IntRange(0, ng-1).Draw(rt, "g")}
-		e.K = rapid.SampledFrom([]string{"insert", "insert", "insert", "insert", "insert", "flush", "uod"}).Draw(rt, "k")
+		e.K = rapid.SampledFrom([]string{"insert", "insert", "insert", "insert", "insert", "insert", "flush", "uod", "upd"}).Draw(rt, "k")
+		if e.K == "upd" {
+			e.V = rapid.IntRange(0, len(c16bVariants)-1).Draw(rt, "v")
+		}
 		switch rapid.IntRange(0, 9).Draw(rt, "gapclass") {
 		case 0, 1, 2, 3, 4:
 		case 5, 6:
